@@ -121,6 +121,9 @@ def ranksOf {φ} (il : IL ι φ) : Option (List Nat) :=
 def cacheRanks {φ} (il : IL ι φ) : IL ι φ :=
   if il.ordered then { il with ranks := some (il.ranks.getD ((List.range il.len).map (· + 1))) } else il
 
+/-- `ItemList(src, ordered=flag)`: the copy carries the flag it was given (the ranks cache is copied with everything else) -/
+def setOrdered {φ} (src : IL ι φ) (flag : Bool) : IL ι φ := { src with ordered := flag }
+
 def fieldsFit {φ} (fields : List (String × List φ)) (n : Nat) : Bool := fields.all (fun nf => nf.2.length == n)
 
 def keepRanks {φ} (vt : Variant) (src : IL ι φ) (n : Nat) : Option (List Nat) :=
